@@ -72,6 +72,11 @@ def full_tags(draw):
         out.append("%s:%s:%s" % (nm, ty, draw(tag_value(ty))))
     if draw(st.integers(0, 5)) == 0:
         out.insert(draw(st.integers(0, len(out))), "ds:Z:" + draw(st.sampled_from([":20*at:5+ga", "=ACGT-cc", ":7"])))
+    if draw(st.integers(0, 4)) == 0:
+        # fields other aligners write next to (or instead of) the CIGAR: difference strings, MD, alignment scores
+        out.insert(draw(st.integers(0, len(out))), draw(st.sampled_from(
+            ["cs:Z::20*ag:10-c:9+tt:8", "cs:Z::7", "cs:Z:=ACGT*ag=TT", "MD:Z:10A5^AC6", "AS:i:-12", "dv:f:0.0021", "id:f:0.998",
+             "bq:Z:IIII#", "zd:i:2", "cm:i:38", "s1:i:105", "rl:i:0"])))
     return out
 
 
